@@ -114,7 +114,7 @@ theorem emit_src_inv {w : TW} (h : WInv none w) (i : Nat) (n : Notif) (hni : ¬ 
         if i = j && w.srcSubscribed && w.srcAlive then
           match n with
           | .next _ => w1.push 0 [n]
-          | _ => if fin w.stages then w1 else { w1 with srcAlive := false }.push 0 [n]
+          | _ => { w1 with srcAlive := false }.push 0 [n]
         else w1
       | _ => w1) := by
   have hot_ctx : ∀ j, w.src = .hot j → (i = j && w.srcSubscribed && w.srcAlive) = true →
@@ -146,12 +146,10 @@ theorem emit_src_inv {w : TW} (h : WInv none w) (i : Nat) (n : Notif) (hni : ¬ 
     · next j hsrc =>
       split
       · next hcond =>
-        split
-        · exact I1
-        · obtain ⟨up, hu⟩ := h
-          obtain ⟨hsrc', hss, hnt⟩ := hot_ctx j hsrc hcond up hu
-          have hu1 : WInvU none { w with terminated := i :: w.terminated } up := (mark_quiet w i).invU hu
-          exact hot_term_inv (.error e) hu1 hsrc' hss hnt (List.mem_cons_self ..)
+        obtain ⟨up, hu⟩ := h
+        obtain ⟨hsrc', hss, hnt⟩ := hot_ctx j hsrc hcond up hu
+        have hu1 : WInvU none { w with terminated := i :: w.terminated } up := (mark_quiet w i).invU hu
+        exact hot_term_inv (.error e) hu1 hsrc' hss hnt (List.mem_cons_self ..)
       · exact I1
     · exact I1
   | complete =>
@@ -160,12 +158,10 @@ theorem emit_src_inv {w : TW} (h : WInv none w) (i : Nat) (n : Notif) (hni : ¬ 
     · next j hsrc =>
       split
       · next hcond =>
-        split
-        · exact I1
-        · obtain ⟨up, hu⟩ := h
-          obtain ⟨hsrc', hss, hnt⟩ := hot_ctx j hsrc hcond up hu
-          have hu1 : WInvU none { w with terminated := i :: w.terminated } up := (mark_quiet w i).invU hu
-          exact hot_term_inv .complete hu1 hsrc' hss hnt (List.mem_cons_self ..)
+        obtain ⟨up, hu⟩ := h
+        obtain ⟨hsrc', hss, hnt⟩ := hot_ctx j hsrc hcond up hu
+        have hu1 : WInvU none { w with terminated := i :: w.terminated } up := (mark_quiet w i).invU hu
+        exact hot_term_inv .complete hu1 hsrc' hss hnt (List.mem_cons_self ..)
       · exact I1
     · exact I1
 
